@@ -226,6 +226,12 @@ func (d *Object) UnmarshalJSON(data []byte) error {
 	if d.payload == nil {
 		return ErrUnknownSchema
 	}
+	if _, ok := d.payload.(*Object); ok {
+		// the object's own schema cannot be used for its payload: decoding
+		// would recurse for ever
+		d.payload = nil
+		return ErrUnknownSchema
+	}
 	if err := json.Unmarshal(data, d.payload); err != nil {
 		return err
 	}
